@@ -874,3 +874,191 @@ Proof.
   apply (filter_seq_list_of codes e 0 f); [|exact Hok].
   apply Forall_forall. intros t _ Ht d o. apply (filter_seq_tree codes e); assumption.
 Qed.
+
+(* ------------------------------------------------------------------ *)
+(** * A reader positioned in front of a chain of events *)
+
+Record at_chain (dbg : bool) (e : enc) (tbl : abbrevs) (E : N) (rest : list byte) (r : raw_st) (l : list xev)
+  : Prop := mkAt {
+  at_ok : Forall (ev_ok dbg e tbl) l;
+  at_in : r_in r = xbytes l ++ rest;
+  at_end : r_end r = E;
+  at_chn : chain (E - nlen (xbytes l ++ rest)) (r_depth r) l;
+  at_le : nlen (xbytes l ++ rest) <= E;
+  at_lt : E < two64;
+  at_depth : depth_ok (r_depth r) (xbytes l ++ rest)
+}.
+
+Lemma at_chain_step dbg e tbl E rest r x l :
+  at_chain dbg e tbl E rest r (x :: l) ->
+  read_entry dbg e tbl r = Ok (negb (is_null (x_die x)), x_die x, mkRaw (xbytes l ++ rest) E (x_post x)) /\
+  at_chain dbg e tbl E rest (mkRaw (xbytes l ++ rest) E (x_post x)) l /\
+  d_offset (x_die x) = E - nlen (xbytes (x :: l) ++ rest) /\ d_depth (x_die x) = r_depth r /\
+  (exists b r0, r_in r = b :: r0).
+Proof.
+  intros [Hok Hin Hend Hch Hle Hlt Hd]. apply Forall_cons_iff in Hok. destruct Hok as [Hx Hl].
+  destruct Hch as (Ho & Hdd & Hch). destruct Hx as (Hne & Hpost & Hread).
+  change (xbytes (x :: l)) with (x_bytes x ++ xbytes l) in *. rewrite <- app_assoc in *.
+  rewrite !nlen_app in *.
+  destruct r as [inp E' d]. cbn [r_in r_end r_depth] in *. subst inp E'.
+  split; [|split; [|split; [|split]]].
+  - rewrite <- Hdd. apply Hread; [rewrite Ho, !nlen_app; lia|exact Hlt|rewrite Hdd; exact Hd].
+  - split; cbn [r_in r_end r_depth]; try assumption; try reflexivity.
+    + rewrite nlen_app. replace (E - (nlen (xbytes l) + nlen rest)) with (E - (nlen (x_bytes x) + (nlen (xbytes l) + nlen rest)) + nlen (x_bytes x)) by lia.
+      exact Hch.
+    + rewrite nlen_app. lia.
+    + apply (depth_ok_step d x); [exact Hne|lia|exact Hd].
+  - exact Ho.
+  - exact Hdd.
+  - destruct Hne as (b & r0 & Eb). rewrite Eb. cbn [app]. eauto.
+Qed.
+
+Lemma next_entry_chain dbg e tbl E rest c x l :
+  at_chain dbg e tbl E rest (c_raw c) (x :: l) ->
+  next_entry dbg e tbl c = Ok (SOk true (mkCur (mkRaw (xbytes l ++ rest) E (x_post x)) (x_die x))).
+Proof.
+  intros H. destruct (at_chain_step _ _ _ _ _ _ _ _ H) as (Hr & _ & _ & _ & (b & r0 & Eb)).
+  unfold next_entry, raw_is_empty. rewrite Eb. cbn [is_nil]. rewrite Hr. reflexivity.
+Qed.
+
+Lemma next_entry_end dbg e tbl c : r_in (c_raw c) = [] ->
+  next_entry dbg e tbl c = Ok (SOk false (mkCur (c_raw c) (set_null (c_cur c)))).
+Proof. intros H. unfold next_entry, raw_is_empty. rewrite H. reflexivity. Qed.
+
+(* `while cursor.next_entry()?` reports every event *)
+Lemma entries_all_chain dbg e tbl E : forall l fuel c,
+  at_chain dbg e tbl E [] (c_raw c) l -> (length l < fuel)%nat ->
+  entries_all fuel dbg e tbl c = Ok (map x_die l, None).
+Proof.
+  induction l as [|x l IH]; intros fuel c Hat Hf; (destruct fuel; [lia|]); cbn [entries_all].
+  - rewrite next_entry_end; [reflexivity|]. destruct Hat as [_ Hin _ _ _ _ _]. exact Hin.
+  - rewrite (next_entry_chain _ _ _ _ _ _ _ _ Hat). cbn [bind c_cur].
+    destruct (at_chain_step _ _ _ _ _ _ _ _ Hat) as (_ & Hat' & _).
+    rewrite (IH fuel (mkCur (mkRaw (xbytes l ++ []) E (x_post x)) (x_die x))); [reflexivity|exact Hat'|cbn in Hf; lia].
+Qed.
+
+(* next_dfs: skip the leading null events *)
+Fixpoint skip_nulls (l : list xev) : list xev :=
+  match l with
+  | [] => []
+  | x :: l' => if is_null (x_die x) then skip_nulls l' else l
+  end.
+
+Lemma skip_nulls_filter : forall l,
+  match skip_nulls l with
+  | [] => filter not_null (map x_die l) = []
+  | x :: l' => filter not_null (map x_die l) = x_die x :: filter not_null (map x_die l') /\
+               is_null (x_die x) = false /\ (length l' < length l)%nat
+  end.
+Proof.
+  induction l as [|x l IH]; [reflexivity|]. cbn [skip_nulls map filter].
+  assert (Hn : not_null (x_die x) = negb (is_null (x_die x))) by reflexivity.
+  destruct (is_null (x_die x)) eqn:En; cbn [negb] in Hn; rewrite Hn.
+  - destruct (skip_nulls l) as [|y l']; [exact IH|]. destruct IH as (A & B & C).
+    split; [exact A|]. split; [exact B|]. cbn [length]. lia.
+  - split; [reflexivity|]. split; [exact En|]. cbn [length]. lia.
+Qed.
+
+Lemma next_dfs_chain dbg e tbl E : forall l fuel c,
+  at_chain dbg e tbl E [] (c_raw c) l -> (length l < fuel)%nat ->
+  match skip_nulls l with
+  | [] => exists c', next_dfs fuel dbg e tbl c = Ok (SOk None c')
+  | x :: l' => next_dfs fuel dbg e tbl c =
+                 Ok (SOk (Some (x_die x)) (mkCur (mkRaw (xbytes l' ++ []) E (x_post x)) (x_die x))) /\
+               at_chain dbg e tbl E [] (mkRaw (xbytes l' ++ []) E (x_post x)) l'
+  end.
+Proof.
+  induction l as [|x l IH]; intros fuel c Hat Hf; (destruct fuel; [lia|]); cbn [next_dfs skip_nulls].
+  - rewrite next_entry_end; [cbn [bind]; eauto|]. destruct Hat as [_ Hin _ _ _ _ _]. exact Hin.
+  - rewrite (next_entry_chain _ _ _ _ _ _ _ _ Hat). cbn [bind c_cur].
+    destruct (at_chain_step _ _ _ _ _ _ _ _ Hat) as (_ & Hat' & _).
+    destruct (is_null (x_die x)) eqn:En; cbn [negb].
+    + apply (IH fuel (mkCur (mkRaw (xbytes l ++ []) E (x_post x)) (x_die x))); [exact Hat'|cbn in Hf; lia].
+    + split; [reflexivity|exact Hat'].
+Qed.
+
+Lemma at_chain_fuel dbg e tbl E r l : at_chain dbg e tbl E [] r l -> (length l < S (length (r_in r)))%nat.
+Proof.
+  intros [Hok Hin _ _ _ _ _]. rewrite Hin, app_nil_r.
+  assert ((length l <= length (xbytes l))%nat); [|lia].
+  apply xbytes_length_le. eapply Forall_impl; [|exact Hok]. intros x (H & _). exact H.
+Qed.
+
+(* Theorem 4: `while let Some(entry) = cursor.next_dfs()?` reports the non-null events *)
+Lemma dfs_all_chain dbg e tbl E : forall fuel l c,
+  at_chain dbg e tbl E [] (c_raw c) l -> (length l < fuel)%nat ->
+  dfs_all fuel dbg e tbl c = Ok (filter not_null (map x_die l), None).
+Proof.
+  induction fuel as [|fuel IH]; intros l c Hat Hf; [lia|]. cbn [dfs_all].
+  pose proof (next_dfs_chain dbg e tbl E l (cursor_fuel c) c Hat (at_chain_fuel _ _ _ _ _ _ Hat)) as Hn.
+  pose proof (skip_nulls_filter l) as Hs.
+  destruct (skip_nulls l) as [|x l'].
+  - destruct Hn as (c' & Hn). rewrite Hn, Hs. reflexivity.
+  - destruct Hn as (Hn & Hat'). destruct Hs as (Hs & _ & Hlen). rewrite Hn, Hs. cbn [bind].
+    rewrite (IH l' (mkCur (mkRaw (xbytes l' ++ []) E (x_post x)) (x_die x))); [reflexivity|exact Hat'|lia].
+Qed.
+
+(* the cursor at the start of a well-formed unit *)
+Lemma at_chain_init dbg e tbl l off E :
+  Forall (ev_ok dbg e tbl) l -> chain off 0 l -> E = off + nlen (xbytes l) -> E < two63 ->
+  at_chain dbg e tbl E [] (mkRaw (xbytes l) E 0) l.
+Proof.
+  intros Hok Hch HE HE63. unfold two63 in HE63.
+  split; cbn [r_in r_end r_depth]; rewrite ?app_nil_r; try reflexivity; try assumption.
+  - replace (E - nlen (xbytes l)) with off by lia. exact Hch.
+  - lia.
+  - unfold two64. lia.
+  - split; unfold nlen in *; lia.
+Qed.
+
+Lemma entries_parsed dbg bigend types uoff h body :
+  header_len h + nlen body < two63 ->
+  entries dbg (parsed_header bigend types uoff h body) =
+  Ok (mkCur (mkRaw body (header_len h + nlen body) 0) null_die).
+Proof.
+  intros Hlen. unfold entries.
+  assert (Hhs : header_size dbg (parsed_header bigend types uoff h body) = Ok (header_len h)).
+  { apply header_size_parsed. rewrite header_len_split in Hlen. unfold unit_length_of, two63 in *. unfold two64.
+    assert (initial_length_size (uh_fmt64 h) >= 4) by (destruct (uh_fmt64 h); cbn; lia). lia. }
+  rewrite Hhs. cbn [bind parsed_header u_entries]. unfold cursor_new, raw_new, chk_add.
+  change (2 ^ 64) with two64. unfold two63 in Hlen. unfold two64.
+  replace (header_len h + nlen body <? 18446744073709551616) with true by lia. reflexivity.
+Qed.
+
+Lemma unit_at_chain dbg bigend h codes f pad tbl :
+  let e := unit_enc bigend h in
+  let body := enc_forest codes bigend (header_len h) f pad in
+  addr_size_ok e -> header_len h + nlen body < two63 ->
+  all_covered tbl codes f -> forest_ok codes e f -> sibs_fit codes (header_len h) f ->
+  at_chain dbg e tbl (header_len h + nlen body) [] (mkRaw body (header_len h + nlen body) 0)
+           (body_evs codes bigend (header_len h) f pad).
+Proof.
+  intros e body He Hlen H1 H2 H3. unfold body.
+  rewrite <- (body_evs_bytes codes bigend (header_len h) f pad).
+  apply (at_chain_init dbg e tbl _ (header_len h)).
+  - change bigend with (be e). apply body_evs_ok; assumption.
+  - apply body_evs_chain.
+  - reflexivity.
+  - rewrite body_evs_bytes. exact Hlen.
+Qed.
+
+Lemma dfs_is_preorder dbg bigend types uoff h codes f pad tbl :
+  let e := unit_enc bigend h in
+  let body := enc_forest codes bigend (header_len h) f pad in
+  addr_size_ok e -> header_len h + nlen body < two63 ->
+  all_covered tbl codes f -> forest_ok codes e f -> sibs_fit codes (header_len h) f ->
+  exists c, entries dbg (parsed_header bigend types uoff h body) = Ok c /\
+            dfs_all (cursor_fuel c) dbg e tbl c = Ok (preorder codes (header_len h) 0 f, None) /\
+            entries_all (cursor_fuel c) dbg e tbl c = Ok (raw_seq codes (header_len h) f pad, None).
+Proof.
+  intros e body He Hlen H1 H2 H3. eexists. split; [apply entries_parsed; exact Hlen|].
+  pose proof (unit_at_chain dbg bigend h codes f pad tbl He Hlen H1 H2 H3) as Hat.
+  fold e body in Hat.
+  set (c := mkCur (mkRaw body (header_len h + nlen body) 0) null_die).
+  change (mkRaw body (header_len h + nlen body) 0) with (c_raw c) in Hat.
+  pose proof (at_chain_fuel _ _ _ _ _ _ Hat) as Hf. unfold cursor_fuel.
+  split.
+  - rewrite (dfs_all_chain dbg e tbl _ _ _ c Hat Hf). rewrite body_evs_dies.
+    rewrite (raw_seq_preorder codes e) by assumption. reflexivity.
+  - rewrite (entries_all_chain dbg e tbl _ _ _ c Hat Hf). rewrite body_evs_dies. reflexivity.
+Qed.
